@@ -1,8 +1,8 @@
 import props as _props
 
 PROP = {
-    "confirm_scenarios": ['idle', 'blockedwrite'],
-    "coq": ["C09", "C09b"],
+    "confirm_scenarios": ['idle', 'blockedwrite', 'slotsaddr'],
+    "coq": ["C09", "C09b", "C09c"],
     "extra": [_props.race_detector_run("C09")],
     "exhaustive": False,
     "rule": "Real server on loopback TCP (MaxClients 1..4) driven through deterministic traces: connect, connect-with-the-accept-goroutine-"
@@ -14,7 +14,8 @@ PROP = {
             "slots free again, new connection served."
             " Fixed traces also restart the server while the teardown of an old session is still pending (X1 P S C2 M ...): the limit must hold for the connections admitted after the restart."
             " Scenario idle also with connections that never complete a first request (silent; stalled inside the MBAP header; stalled inside the body): the deadline armed at admission must end the session and free the slot."
-            " Scenario tlsslots: the same accounting on a tcp+tls server (MaxClients 1..3, run-time certificates): traces mixing legitimate TLS clients (TLS 1.2/1.3; served, then disconnect / protocol error / idle expiry) with peers that take a slot but never become a session (immediate close, clear-text request, garbage, close in the middle of the handshake, no / untrusted / expired / wrong-usage certificate, TLS < 1.2), the failure happening at any later point of the trace; after every step the active-list length, ok/refused, resp/closed and the handler-call count are compared with the Slots model (arrival / departure step lists of Model/SlotsVisit.v); every trace ends with a legitimate client that must be served with exactly one handler call.",
+            " Scenario tlsslots: the same accounting on a tcp+tls server (MaxClients 1..3, run-time certificates): traces mixing legitimate TLS clients (TLS 1.2/1.3; served, then disconnect / protocol error / idle expiry) with peers that take a slot but never become a session (immediate close, clear-text request, garbage, close in the middle of the handshake, no / untrusted / expired / wrong-usage certificate, TLS < 1.2), the failure happening at any later point of the trace; after every step the active-list length, ok/refused, resp/closed and the handler-call count are compared with the Slots model (arrival / departure step lists of Model/SlotsVisit.v); every trace ends with a legitimate client that must be served with exactly one handler call."
+            " Scenario slotsaddr: slots belong to connections, not to source addresses: clients dial from FIXED local ip:port (net.Dialer.LocalAddr, aborts with SO_LINGER 0) and come back from an address while the server's session for the previous connection from that address is still alive (held inside a blocking handler, or held before its removal critical section, or the new connection held between Accept and admission); the old session is released later, the server is filled to MaxClients, one connection beyond the limit; after every step the active-list length, resp/closed/held and the handler-call count are compared with the Slots model, in which the address is a label the transition system never looks at (Model/SlotsAddr.v, Properties/C09c.v); every trace ends with a request on every open connection.",
     "assumptions": ["goroutine scheduling and socket close semantics are exercised, not modelled; idle-expiry timing relies on Go's net deadlines"],
 }
 
